@@ -337,6 +337,19 @@ def random_model(rnd, multi=True):
         elif t < 0.14:
             fm["tp"] = 0.0
         model["forms"].append(fm)
+    if multi and rnd.random() < 0.5:
+        # register forms whose memory variants are composed from the load / store defaults,
+        # scaled by documented multipliers (as in the shipped zen1 model)
+        def data_uops():
+            return [[1, rnd.sample(range(1, n + 1), rnd.randint(1, min(2, n)))] for _ in range(rnd.choice([1, 1, 2]))]
+
+        mult = {"gpr": 1.0, "xmm": 1.0, "ymm": rnd.choice([1.0, 2.0, 2.0])}
+        model["mem"] = {"load": data_uops(), "store": data_uops(),
+                        "regforms": [{"reg": rnd.choice(["xmm", "ymm"]), "uops": uops(), "tp": 1.0, "lat": 3.0}
+                                     for _ in range(rnd.randint(1, 2))]}
+        if rnd.random() < 0.8:
+            model["mem"]["load_mult"] = dict(mult)
+            model["mem"]["store_mult"] = dict(mult)
     return model
 
 
@@ -351,6 +364,9 @@ def random_kernel(rnd, model, maxlen=8, extras=True):
             k.append(("label",))
         elif extras and r < 0.12:
             k.append(("unknown",))
+        elif model.get("mem") and r < 0.3:
+            j = rnd.randrange(len(model["mem"]["regforms"]))
+            k.append((rnd.choice(["ld", "st"]), j, model["mem"]["regforms"][j]["reg"]))
         else:
             k.append(rnd.randrange(len(model["forms"])))
     return k
@@ -365,6 +381,15 @@ def abstract_lines(model, kernel):
             fm = model["forms"][it]
             alts = [[{"c": units(c), "p": list(ps), "m": 2} for c, ps in alt] for alt in fm["alts"]]
             lines.append({"tp": 1 if fm.get("tp", 1.0) not in (None, 0.0) else 0, "alts": alts})
+        elif it[0] in ("ld", "st"):
+            mem = model["mem"]
+            fm = mem["regforms"][it[1]]
+            table = mem["load"] if it[0] == "ld" else mem["store"]
+            mults = mem.get("load_mult" if it[0] == "ld" else "store_mult") or {}
+            m2 = int(round(2 * mults.get(it[2], 1.0)))
+            alt = [{"c": units(c), "p": list(ps), "m": 2} for c, ps in fm["uops"]] + \
+                  [{"c": units(c), "p": list(ps), "m": m2} for c, ps in table]
+            lines.append({"tp": 1, "alts": [alt]})
         else:
             lines.append({"tp": 0, "alts": [[]]})
     return lines
